@@ -1871,6 +1871,8 @@ Config exhaustiveConfig(size_t i)
 }
 const size_t N_EXH_CONFIGS = 12;
 
+bool isIndexOp(int k) { return k == O_SET_NIDX || k == O_ADD_NIDX || k == O_SET_EIDX || k == O_ADD_EIDX; }
+
 bool replay(World& w, const Config& cfg, const vector<Op>& ops)
 {
   initWorld(w, cfg);
@@ -1884,7 +1886,10 @@ void caseExhaustive(vrt::Case& c)
 {
   Ctx ctx;
   C = &ctx;
-  size_t ci = c.index / FRONTIER_SLOTS, slot = c.index % FRONTIER_SLOTS;
+  // index -> (configuration, state slot); the low slots (the ones that exist) alternate with high (empty) ones and the
+  // configurations are interleaved, so that every chunk of consecutive indices carries a similar load
+  size_t ci = c.index % N_EXH_CONFIGS, s2 = c.index / N_EXH_CONFIGS;
+  size_t slot = (s2 % 2 == 0) ? s2 / 2 : FRONTIER_SLOTS / 2 + s2 / 2;
   Config cfg = exhaustiveConfig(ci);
   const int depth = c.tier == 1 ? 6 : (cfg.indexMode == 0 ? 5 : 4);
   gStrideMul = 4;
@@ -1920,8 +1925,15 @@ void caseExhaustive(vrt::Case& c)
       World w;
       if (!replay(w, cfg, seq)) continue;
       vector<Op> ops = listOps(w, 0);
+      bool seqHasIndexOp = false;
+      for (auto& o : seq) if (isIndexOp(o.kind)) seqHasIndexOp = true;
       for (auto& op : ops)
       {
+        // a sequence without any index call is the same sequence in the index-free configuration: explored there
+        if (cfg.indexMode != 0 && d == depth && !seqHasIndexOp && !isIndexOp(op.kind)) continue;
+        // the copy/assignment probes leave the state unchanged: one flavour of each per state, alternating with the depth
+        if (op.kind == P_COPY && op.sel != d % 2) continue;
+        if (op.kind == P_ASSIGN && op.sel != (d + 1) % 2) continue;
         World w2;
         if (!replay(w2, cfg, seq)) break;
         ++expansions;
@@ -1994,15 +2006,17 @@ void caseRandom(vrt::Case& c)
 int main(int argc, char** argv)
 {
   vector<vrt::Group> groups = {
-    { "exhaustive", N_EXH_CONFIGS * FRONTIER_SLOTS, N_EXH_CONFIGS * FRONTIER_SLOTS, caseExhaustive, 1800, true },
-    { "random", 2500, 60000, caseRandom, 600, false },
+    { "exhaustive", N_EXH_CONFIGS * FRONTIER_SLOTS, N_EXH_CONFIGS * FRONTIER_SLOTS, caseExhaustive, 7200, true },
+    { "random", 2500, 40000, caseRandom, 600, false },
   };
   vrt::Meta meta;
   meta.rule = "exhaustive: for each of 12 configurations (initially directed/undirected x links with/without edge objects x no/explicit/allocated indices) a breadth-first "
       "exploration of ALL sequences of public calls (observer: createNode both forms, link, unlink, deleteNode, associate*/dissociate*, setEdgeLinking, set*/add*Index, "
       "copy-construct/clone/assign probes; graph: createNode, createNodeFromNode, createNodeOnEdge, createNodeFromEdge, deleteNode, makeDirected, makeUndirected; every call "
       "also with absent/deleted/duplicate arguments that must raise) over at most 4 nodes, up to length 6 (thorough; quick: 5 for the configurations without indices, 4 for the others), memoised on the canonical form of the audited "
-      "state (ids replaced by ranks; see stateKey); the states first reached after 2 calls are distributed over the cases, each case explores everything behind one of them. "
+      "state (ids replaced by ranks; see stateKey); the states first reached after 2 calls are distributed over the cases, each case explores everything behind one of them "
+      "(memo per case). In the configurations with indices a last call is only added to sequences that contain an index call (the others are literally the sequences of the "
+      "index-free configuration); the copy-construct/clone and assign/re-assign probes (which leave the state unchanged) alternate with the depth, one flavour of each per state. "
       "random: histories of 40 calls over at most 8 nodes with a second observer (a live copy sharing the graph) spawned and destroyed at random moments. "
       "A class key = operation kind + argument class (new/absent/duplicate/loop/...) + graph mode; all keys are real calls on the structure.";
   meta.assumptions = {
